@@ -75,6 +75,21 @@ SCENARIOS.update({
     "large_send_vs_server_close_echo": {"deflate": False, "threads": {"A": [["send_binary", BIG("A", 0, 140000)]]},
                                         "loop": {"bytes": SRV_CLOSE, "idle_waits": 0}, "copts": {"ping_rate": 0}},
 })
+SCENARIOS.update({
+    # the application called close() BEFORE the opening handshake had finished (at Connected): the Close frame is on the
+    # wire when Ready arrives; sends and a second close() then race on two threads and with the loop's own writes
+    "early_close_then_send_vs_close": {"deflate": False, "at_connected": [["close", 1000, "early"]],
+                                       "threads": {"A": [["send_text", P("A", 0)]], "B": [["close", 1001, "b"]]}},
+    "early_close_then_sends_deflate": {"deflate": True, "at_connected": [["close", 1000, "early"]],
+                                       "threads": {"A": [["send_text", P("A", 0)], ["send_binary", P("A", 1)]],
+                                                   "B": [["send_ping", "B-0:ping"]]}},
+    "early_close_then_send_vs_autopong": {"deflate": False, "at_connected": [["close", 1000, "early"]],
+                                          "threads": {"A": [["send_text", P("A", 0)]]},
+                                          "loop": {"bytes": SRV_PING, "idle_waits": 0}, "copts": {"ping_rate": 0}},
+    "early_close_then_send_vs_server_close": {"deflate": False, "at_connected": [["close", 1000, "early"]],
+                                              "threads": {"A": [["send_text", P("A", 0)], ["close", 1000, "again"]]},
+                                              "loop": {"bytes": SRV_CLOSE, "idle_waits": 0}, "copts": {"ping_rate": 0}},
+})
 BOUND2 = ["close_vs_text", "close_vs_close", "close_vs_ping", "close_vs_server_close_echo"]
 
 
@@ -138,7 +153,7 @@ def judge(scn, out):
 
 class C12(C11):
     id = "C12"
-    rule = ("18 scenarios: close() racing with send_text / send_binary / send_ping / another close() on 2-3 threads, and with the "
+    rule = ("%d scenarios:" % len(SCENARIOS) + "  close() racing with send_text / send_binary / send_ping / another close() on 2-3 threads, and with the "
             "event-loop thread echoing a server Close (with and without a body), answering a Ping or crossing a ping deadline; run under the deterministic "
             "scheduler (source-line granularity inside lomond + lock acquisition + the middle of every sendall). Schedules: every "
             "thread order x every single preemption (exhaustive, both tiers), every pair of preemptions for four scenarios "
